@@ -735,6 +735,9 @@ class Frame:
             return ("default",)
         if k == "ArraySubscriptExpr":
             b, i = self.e(n["c"][0]), self.e(n["c"][1])
+            if isinstance(b, tuple) and b[:2] == ("call", "initlist") and isinstance(i, tuple) and i[0] == "num" \
+                    and i[1].denominator == 1 and 0 <= int(i[1]) < len(b[2]):
+                return b[2][int(i[1])]            # constant array with a constant index
             if b[0] == "elem":
                 return b + (i,)
             return ("elem", self.fz(b), i)
